@@ -142,6 +142,8 @@ def gen_random(tier, seed):
 
 def suites(tier, seed):
     return [
+        Suite("water-mark-boundaries", "machine", lambda: __import__("machgen").water_mark_cases(Rng(seed + 18)), monitor=__import__("props.c01", fromlist=["x"]).monitor, nontrivial=lambda c, il: True, canon=__import__("machgen").canon_nondet, exhaustive=True,
+              rule="queue entries whose sizes add up to the high-water mark exactly / one byte less / one byte more (2, 3, 5 frames of 5-7 queued): one handler run takes the whole queue whatever is buffered; everything reaches the wire once, in order"),
         Suite("timers-with-backlog", "machine", lambda: [__import__("hbgen").session(Rng(seed * 11 + i), "t%d" % i, h_choices=(400, 300), stall_bias=True, steps=(6, 10)) for i in range(12 if tier == "quick" else 120)] + __import__("hbgen").tx_with_data_queued_cases(Rng(seed + 3)),
               monitor=__import__("props.c01", fromlist=["x"]).monitor, nontrivial=lambda c, il: True, canon=__import__("hbgen").canon, shards=16, shrink=False, timeout=300,
               rule="content frames queued, the transport stalled at a frame boundary or after a few bytes of a frame, heartbeat timers firing meanwhile (real loop, real timers, case clock): what is written and buffered stays a sequence of whole frames in submission order - nothing is ever inserted into a frame in transit"),
